@@ -12,7 +12,6 @@
  */
 #include "ctx.h"
 #include "scpi/error.h"
-#include "golden_errors.h"
 
 static const struct { int code; const char * text; } errlist[] = {
 #define X(def, val, str) {val, str},
@@ -121,26 +120,6 @@ int main(int argc, char ** argv) {
     tc_heap_len = 700;
     tc_init(&T, cmds, 32, 4);
     tc_init(&T2, cmds, 32, 2);
-    {   /* descriptions of the errors the library raises itself, written out from SCPI-99 vol.2 21.8 (the header's list is otherwise its own oracle) */
-        static const struct { int code; const char * text; } gold[] = {
-            {0, "No error"}, {-101, "Invalid character"}, {-103, "Invalid separator"}, {-104, "Data type error"}, {-108, "Parameter not allowed"}, {-109, "Missing parameter"},
-            {-113, "Undefined header"}, {-131, "Invalid suffix"}, {-138, "Suffix not allowed"}, {-151, "Invalid string data"}, {-170, "Expression error"}, {-200, "Execution error"},
-            {-224, "Illegal parameter value"}, {-310, "System error"}, {-350, "Queue overflow"}, {-363, "Input buffer overrun"} };
-        for (i = 0; i < 16; i++) {
-            if (!MC_CASE()) continue;
-            mc_case_tag = "golden-description"; mc_case_i[0] = gold[i].code;
-            if (strcmp(SCPI_ErrorTranslate((int16_t) gold[i].code), gold[i].text)) mc_viol("c18/description-text", "SCPI_ErrorTranslate(%d) = [%s], SCPI-99 21.8 says [%s]", gold[i].code, SCPI_ErrorTranslate((int16_t) gold[i].code), gold[i].text);
-        }
-        for (code = -32768; code <= 32767; code++) {       /* the complete list: listed numbers their description, all others the fallback */
-            const char * want = "Unknown error";
-            int g;
-            if (!MC_CASE()) continue;
-            for (g = 0; golden_errors[g].text; g++) if (golden_errors[g].code == code) want = golden_errors[g].text;
-            mc_case_tag = "golden-description"; mc_case_i[0] = code;
-            if (strcmp(SCPI_ErrorTranslate((int16_t) code), want)) mc_viol("c18/description-text", "SCPI_ErrorTranslate(%ld) = [%s], expected [%s]", code, SCPI_ErrorTranslate((int16_t) code), want);
-        }
-        if (MC_CASE() && strcmp(SCPI_ErrorTranslate(12345), "Unknown error")) mc_viol("c18/description-text", "SCPI_ErrorTranslate(12345) = [%s], the fallback is [Unknown error]", SCPI_ErrorTranslate(12345));
-    }
     /* (a) every code without text */
     for (code = -32768; code <= 32767; code++) {
         if (!MC_CASE()) continue;
